@@ -21,3 +21,7 @@ add("C01", "SEQ", "model_checking", "explicit-state BFS over upload-protocol his
 add("C02", "SEQ", "model_checking", "explicit-state BFS over push/delete/restart histories on the implementation (bounded depth), model comparison in every state",
     "All histories up to the stated depth of blob and manifest pushes (four manifest media types, by tag and digest, bodies at and beyond the manifest limit with known and unknown length), re-pushes, tag moves, deletes and restart are explored on both stores; in every distinct state every acknowledged, undeleted item is read by digest and tag with GET and HEAD, under all 15 Accept subsets containing its type, and every byte range of a 4 byte blob is compared.",
     TRUSTED, "DESIGN.md section 4 C02")
+
+add("C04", "SEQ", "model_checking", "explicit-state BFS (bounded depth) applying a push matrix in every reachable repository state, differential oracle around refusals",
+    "A matrix of 14 manifest bodies x 10 reference/parameter shapes is applied in every repository state reachable within the depth bound on both stores; a push is acknowledged iff the model predicate (valid reference, supported type consistent with the body, parses, all references present in this repository) holds, a refusal must be a 4xx and the complete read transcript before and after it must be equal.",
+    TRUSTED, "DESIGN.md section 4 C04")
